@@ -129,3 +129,24 @@ func VerifC13_Deadline_CancelRace() { verifCancelRace(1) }
 //
 //verif:harness property=C13 theory=bv tier=quick timers=off unwind=3 unwind_thorough=5 unwindcut=1 clock=frozen maxpaths=30000
 func VerifC13_Queue_CancelRace() { verifCancelRace(2) }
+
+// VerifC12_Conc_BoundTwoArrivals (event-order): limit 1 held, backlog bound 1, two callers arrive
+// concurrently (no release, timers off): at quiescence at most one of them is blocked in the backlog
+// - the other one was refused at once - and the backlog length equals the number of blocked callers.
+//
+//verif:harness property=C12 theory=bv tier=quick timers=off unwind=3 unwindcut=1 clock=frozen maxpaths=30000
+func VerifC12_Conc_BoundTwoArrivals() {
+	inner, _ := verifFullLimiter()
+	ord := []QueueOrdering{OrderingFIFO, OrderingLIFO}[verif.Choice("ordering", 2)]
+	lim := NewQueueBlockingLimiterFromConfig(inner, QueueLimiterConfig{Ordering: ord, MaxBacklogSize: 1, MaxBacklogTimeout: time.Hour})
+	_, ok := lim.Acquire(context.Background())
+	verif.Assert("setup-holds-the-only-token", ok)
+	verif.Spawn("a", func() { lim.Acquire(context.Background()) })
+	verif.Spawn("b", func() { lim.Acquire(context.Background()) })
+	verif.Parallel()
+	nBlocked := verif.B2I(verif.Blocked("a")) + verif.B2I(verif.Blocked("b"))
+	verif.Class("both_callers_blocked", nBlocked == 2)
+	verif.Assert("backlog-bound-holds-under-concurrent-arrivals", nBlocked <= 1)
+	verif.Assert("backlog-length-is-blocked-callers", int(lim.backlog.len()) == nBlocked)
+	verif.Reach("end")
+}
